@@ -92,6 +92,10 @@ def ref_tp(freqs, w, T, cutoff_thz, classical):
 def cf_specs(draw, tier):
     nq = draw(st.integers(1, 4))
     nb = draw(st.integers(1, 7))
+    if draw(st.sampled_from([0] * 11 + [1])):
+        # a mesh of a size real calculations have (more than a thousand q-points; code paths chosen by size)
+        nq = draw(st.sampled_from([1025, 1331, 2300, 4097]))
+        nb = draw(st.integers(1, 3))
     return {
         "key": draw(st.integers(0, 2**32 - 1)), "nq": nq, "nb": nb,
         "neg_frac": draw(st.sampled_from([0.0, 0.0, 0.2])), "zeros": draw(st.booleans()), "dups": draw(st.booleans()),
@@ -228,7 +232,8 @@ def run_closed_form(spec):
     distinct = len(set(np.round(fsel[fsel * THzToEv > cut_eff * THzToEv], 9).tolist()))
     classes = ["torder:" + spec.get("torder", "zero_first"), "tlayout:" + spec.get("tlayout", "array"), "lang:" + spec["lang"], "classical" if spec["classical"] else "quantum", "cutoff:" + spec["cutoff"],
                "bi:" + spec["band_indices"], "pretend" if spec["pretend_real"] else "asis",
-               "x>709" if xmax > 709 else ("x>50" if xmax > 50 else "x<=50"), "tiny_mode" if spec.get("tiny") else "no_tiny_mode"]
+               "x>709" if xmax > 709 else ("x>50" if xmax > 50 else "x<=50"), "tiny_mode" if spec.get("tiny") else "no_tiny_mode",
+               "nq>1024" if spec["nq"] > 1024 else "nq<=4"]
     return Out(ok=True, nontrivial=distinct >= 2 and len(Ts) > 1, classes=classes, info={"tol_ratio": worst, "xmax": xmax})
 
 
